@@ -1,7 +1,7 @@
 (* C05 proofs about the parser model, part B: what each parse function consumes.
    For every function: a successful call splits its input into the consumed prefix and the
    returned rest, and the prefix has the accounting shape of ProofsLimits. *)
-From Gv Require Import lib.Bytes lib.Gql C05.Lex C05.Parse C05.Limits C05.Spec C05.ProofsLimits.
+From Gv Require Import lib.Bytes lib.Gql C05.Lex C05.Parse C05.Limits C05.Spec C05.ProofsLimits C05.ProofsParen.
 From Coq Require Import ZArith Lia.
 
 Lemma is_kind_eq : forall k t, is_kind k t = true -> pk t = k.
@@ -301,8 +301,8 @@ Proof.
     intros ts s r H. cbn [parse_field] in H.
     destruct ts as [|t r0]; [discriminate H|].
     destruct (is_kind KIdent t) eqn:Et; [|discriminate H]. simpl in H. apply is_kind_eq in Et.
-    assert (Hd1 : FieldsOK 1 [t] /\ StateOK [t]).
-    { split; [apply FieldsOK_ident; assumption|apply StateOK_tok; congruence]. }
+    assert (Hd1 : FieldsOK 1 [t] /\ Plain [t]).
+    { split; [apply FieldsOK_ident; assumption|eapply Plain_tok_kind; [eassumption|reflexivity]]. }
     assert (Plainhd : forall r1, field_tail (parse_selset f) f None (plit t) r1 = Ok s r ->
               exists pre, t :: r1 = pre ++ r /\ SelOK s pre /\ pre <> []).
     { intros r1 Ht. apply field_tail_shape in Ht; [|exact IHset].
@@ -320,9 +320,8 @@ Proof.
       change [t; c; n] with ([t] ++ [c] ++ [n]).
       apply FieldsOK_app; [apply FieldsOK_ident; assumption|].
       apply FieldsOK_app; [apply FieldsOK_plain; eapply Plain_tok_kind; [eassumption|reflexivity]|apply FieldsOK_ident; assumption].
-    + change [t; c; n] with ([t] ++ [c] ++ [n]).
-      apply StateOK_app; [apply StateOK_tok; congruence|].
-      apply StateOK_app; apply StateOK_tok; congruence.
+    + apply Plain_cons; [rewrite Et; reflexivity|]. apply Plain_cons; [rewrite Ec; reflexivity|].
+      eapply Plain_tok_kind; [eassumption|reflexivity].
   - (* after a spread *)
     intros ts s r H. cbn [parse_frag_sel] in H.
     destruct ts as [|t r0]; [discriminate H|].
@@ -361,27 +360,101 @@ Qed.
 (* ---- definitions and documents ---- *)
 Open Scope Z_scope.
 Definition DocOK (l : list definition) (pre : list ptoken) : Prop :=
-  (forall st, l_local st = 0 ->
-     l_local (lrun true pre st) = 0 /\ l_fields st + doc_fields l <= l_fields (lrun true pre st))
+  (forall cm st, l_local st = 0 ->
+     l_local (lrun true cm pre st) = 0 /\ l_fields st + doc_fields l <= l_fields (lrun true cm pre st))
   /\ DepthOK (doc_depth l) pre.
 
 Lemma DocOK_nil : DocOK [] [].
-Proof. split; [intros st H; simpl; lia|apply DepthOK_state; apply StateOK_nil]. Qed.
+Proof. split; [intros cm st H; simpl; lia|apply DepthOK_state; apply StateOK_nil]. Qed.
 
 Lemma DocOK_cons : forall d hdr sub l rest, Plain hdr -> SetOK (def_sels d) sub -> DocOK l rest ->
   DocOK (d :: l) (hdr ++ sub ++ rest).
 Proof.
-  intros d hdr sub l rest [H1 H2] [S1 S2] [D1 D2]. split.
-  - intros st Hst. rewrite !lrun_app.
-    destruct (H1 st) as (A1 & A2 & _); [lia|].
-    destruct (S1 (lrun true hdr st)) as (B1 & B2 & _); [lia|].
-    destruct (D1 (lrun true sub (lrun true hdr st))) as (C1 & C2); [lia|].
+  intros d hdr sub l rest (H1 & H2 & _) (S1 & S2 & _) [D1 D2]. split.
+  - intros cm st Hst. rewrite !lrun_app.
+    destruct (H1 cm st) as (A1 & A2 & _); [lia|].
+    destruct (S1 cm (lrun true cm hdr st)) as (B1 & B2 & _); [lia|].
+    destruct (D1 cm (lrun true cm sub (lrun true cm hdr st))) as (C1 & C2); [lia|].
     simpl doc_fields. split; lia.
   - simpl doc_depth. apply DepthOK_after; [exact H2|]. apply DepthOK_max; assumption.
 Qed.
 
+(* the cumulative depth (current accounting): from a state between definitions, an accepted run has
+   checked global + peak + the sum of the depths of the definitions, and ends between definitions *)
+Definition CumOK (l : list definition) (pre : list ptoken) : Prop :=
+  forall L F st rest a b, 0 < L ->
+    l_local st = 0 -> l_paren st = 0 -> l_open st = true -> 0 <= l_peak st ->
+    lim_run true true L F (pre ++ rest) st = (LOk, a, b) ->
+    (0 < depth_sum l -> l_global st + l_peak st + depth_sum l <= L) /\
+    l_local (lrun true true pre st) = 0 /\ l_paren (lrun true true pre st) = 0 /\
+    l_open (lrun true true pre st) = true /\ 0 <= l_peak (lrun true true pre st) /\
+    l_global st + l_peak st + depth_sum l <= l_global (lrun true true pre st) + l_peak (lrun true true pre st).
+
+Lemma CumOK_nil : CumOK [] [].
+Proof. intros L F st rest a b HL H1 H2 H3 H4 H. simpl. repeat split; auto; lia. Qed.
+
+Lemma depth_sum_nonneg : forall l, 0 <= depth_sum l.
+Proof. induction l as [|x r IH]; simpl; [lia|]. pose proof (selset_depth_nonneg (def_sels x)). lia. Qed.
+
+(* one definition, from a state between definitions.  [hd] is empty for the shorthand operation and
+   starts with the definition keyword otherwise. *)
+Lemma CumOK_def : forall d hd sub,
+  (hd = [] \/ exists kw hdr, hd = kw :: hdr /\ pk kw = KIdent /\ is_def_kw (keyword_of (plit kw)) = true /\ Plain hdr) ->
+  SetOK (def_sels d) sub -> def_sels d <> [] -> pnet (hd ++ sub) = 0 ->
+  forall L F st rest a b, 0 < L ->
+    l_local st = 0 -> l_paren st = 0 -> l_open st = true -> 0 <= l_peak st ->
+    lim_run true true L F ((hd ++ sub) ++ rest) st = (LOk, a, b) ->
+    l_global st + l_peak st + selset_depth (def_sels d) <= L /\
+    l_local (lrun true true (hd ++ sub) st) = 0 /\ l_paren (lrun true true (hd ++ sub) st) = 0 /\
+    l_open (lrun true true (hd ++ sub) st) = true /\ 0 <= l_peak (lrun true true (hd ++ sub) st) /\
+    l_global st + l_peak st + selset_depth (def_sels d) <=
+      l_global (lrun true true (hd ++ sub) st) + l_peak (lrun true true (hd ++ sub) st).
+Proof.
+  intros d hd sub Hhd (S1 & S2 & S3 & S4 & S5) Hne Hpn L F st rest a b HL Hl Hpa Hop Hpk H.
+  assert (Hdep : 0 < selset_depth (def_sels d)).
+  { unfold selset_depth. destruct (def_sels d); [congruence|]. pose proof (sels_maxdepth_nonneg (s :: l)). lia. }
+  assert (Hparen : l_paren (lrun true true (hd ++ sub) st) = 0) by (rewrite lrun_paren; lia).
+  destruct Hhd as [->|(kw & hdr & -> & Hk & Hkw & Hplain)].
+  - (* shorthand: the brace starts a new period *)
+    simpl app in *.
+    assert (Hs : starts_shorthand true st = true).
+    { unfold starts_shorthand. rewrite Hop. replace (l_local st <=? 0) with true by lia. replace (l_paren st <=? 0) with true by lia. reflexivity. }
+    destruct (S4 true st Hl Hpk) as (T1 & T2 & T3 & T4 & T5).
+    split; [eapply S5; eassumption|]. repeat split; auto.
+  - (* keyword: the keyword starts the period, the header is plain, the set follows *)
+    change ((kw :: hdr) ++ sub) with ([kw] ++ hdr ++ sub) in *.
+    rewrite <- !app_assoc in H. simpl app in H. apply lim_run_step_ok in H.
+    rewrite !lrun_app in *. cbn [lrun] in *.
+    remember (lstep true true kw st) as s1 eqn:Es1.
+    assert (K1 : l_global s1 = l_global st + l_peak st /\ l_local s1 = 0 /\ l_peak s1 = 0).
+    { subst s1. unfold lstep. rewrite Hk, Hkw. replace (l_local st <=? 0) with true by lia. simpl. auto. }
+    destruct K1 as (K1 & K2 & K3). clear Es1.
+    apply lim_run_app_ok in H.
+    destruct Hplain as (P1 & P2 & _).
+    destruct (P1 true s1 ltac:(lia)) as (Q1 & _). destruct (P2 true true s1 ltac:(lia)) as (Q2 & Q3 & _).
+    remember (lrun true true hdr s1) as s2 eqn:Es2. clear Es2.
+    destruct S2 as [D1 _].
+    pose proof (D1 true true L F s2 rest a b HL Q3 Hdep H) as Hb.
+    destruct (S4 true s2 ltac:(lia) Q3) as (T1 & T2 & T3 & T4 & _).
+    repeat split; auto; try lia.
+Qed.
+
+Lemma CumOK_cons : forall d hd sub l rest,
+  (hd = [] \/ exists kw hdr, hd = kw :: hdr /\ pk kw = KIdent /\ is_def_kw (keyword_of (plit kw)) = true /\ Plain hdr) ->
+  SetOK (def_sels d) sub -> def_sels d <> [] -> pnet (hd ++ sub) = 0 ->
+  CumOK l rest -> CumOK (d :: l) (hd ++ sub ++ rest).
+Proof.
+  intros d hd sub l rest Hhd Hset Hne Hpn Hrest L F st rest' a b HL H1 H2 H3 H4 H.
+  rewrite app_assoc in *. rewrite <- (app_assoc (hd ++ sub)) in H.
+  destruct (CumOK_def d hd sub Hhd Hset Hne Hpn L F st (rest ++ rest') a b HL H1 H2 H3 H4 H) as (B & C1 & C2 & C3 & C4 & C5).
+  apply lim_run_app_ok in H.
+  destruct (Hrest L F _ rest' a b HL C1 C2 C3 C4 H) as (B' & D1 & D2 & D3 & D4 & D5).
+  rewrite lrun_app. simpl depth_sum. pose proof (depth_sum_nonneg l).
+  repeat split; auto; try lia.
+Qed.
+
 Lemma operation_shape : forall f k ts d r, parse_operation f k ts = Ok d r ->
-  exists hdr sub, ts = hdr ++ sub ++ r /\ Plain hdr /\ SetOK (def_sels d) sub.
+  exists hdr sub, ts = hdr ++ sub ++ r /\ Plain hdr /\ SetOK (def_sels d) sub /\ def_sels d <> [].
 Proof.
   intros f k ts d r H. unfold parse_operation in H.
   (* optional name *)
@@ -409,15 +482,16 @@ Proof.
     - inversion Hx; subst. exists []. split; [reflexivity|apply Plain_nil]. }
   dmatch H. destruct (Hv _ _ eq_refl) as (pv & Epv & Hpv). clear Hv E. subst r1.
   dmatch H. apply dirs_plain in E. destruct E as (pd & -> & Hpd).
-  dmatch H. inversion H; subst. apply (proj1 (sel_shape f)) in E. destruct E as (ps & -> & Hset & _ & _).
+  dmatch H. inversion H; subst. apply (proj1 (sel_shape f)) in E. destruct E as (ps & -> & Hset & Hne & _).
   exists (pn ++ pv ++ pd), ps. splits.
   - rewrite <- !app_assoc. reflexivity.
   - apply Plain_app; [assumption|apply Plain_app; assumption].
   - exact Hset.
+  - exact Hne.
 Qed.
 
 Lemma fragment_shape : forall f ts d r, parse_fragment f ts = Ok d r ->
-  exists hdr sub, ts = hdr ++ sub ++ r /\ Plain hdr /\ SetOK (def_sels d) sub.
+  exists hdr sub, ts = hdr ++ sub ++ r /\ Plain hdr /\ SetOK (def_sels d) sub /\ def_sels d <> [].
 Proof.
   intros f ts d r H. unfold parse_fragment in H.
   destruct ts as [|n [|o [|t r0]]]; try discriminate H.
@@ -425,86 +499,109 @@ Proof.
   apply is_kind_eq in E1. apply is_kind_eq in E3. unfold is_on in E2. apply andb_prop in E2. destruct E2 as [E2 _].
   apply is_kind_eq in E2.
   dmatch H. apply dirs_plain in E. destruct E as (pd & -> & Hpd).
-  dmatch H. inversion H; subst. apply (proj1 (sel_shape f)) in E. destruct E as (ps & -> & Hset & _ & _).
-  exists (n :: o :: t :: pd), ps. splits; [reflexivity| |exact Hset].
+  dmatch H. inversion H; subst. apply (proj1 (sel_shape f)) in E. destruct E as (ps & -> & Hset & Hne & _).
+  exists (n :: o :: t :: pd), ps. splits; [reflexivity| |exact Hset|exact Hne].
   apply Plain_cons; [rewrite E1; reflexivity|]. apply Plain_cons; [rewrite E2; reflexivity|].
   apply Plain_cons; [rewrite E3; reflexivity|assumption].
 Qed.
 
+Lemma opkind_def_kw : forall kw k, opkind_of kw = Some k -> is_def_kw kw = true.
+Proof. intros kw k H. destruct kw; simpl in H; try discriminate H; reflexivity. Qed.
+
 Lemma defs_shape : forall fuel ts acc doc r, parse_defs fuel ts acc = Ok doc r ->
-  r = [] /\ exists more, doc = rev acc ++ more /\ DocOK more ts.
+  r = [] /\ exists more, doc = rev acc ++ more /\ DocOK more ts /\ CumOK more ts.
 Proof.
   induction fuel as [|f IH]; intros ts acc doc r H; [discriminate H|].
   cbn [parse_defs] in H. destruct ts as [|t r0].
-  { inversion H; subst. split; [reflexivity|]. exists []. split; [rewrite app_nil_r; reflexivity|apply DocOK_nil]. }
-  assert (Cont : forall (x : res definition) hd,
-     Plain hd ->
+  { inversion H; subst. split; [reflexivity|]. exists []. split; [rewrite app_nil_r; reflexivity|split; [apply DocOK_nil|apply CumOK_nil]]. }
+  assert (Cont : forall (x : res definition),
+     pk t = KIdent -> is_def_kw (keyword_of (plit t)) = true ->
      match x with
      | Ok d r' => parse_defs f r' (d :: acc)
      | Err => Err | Unsup => Unsup | Oof => Oof end = Ok doc r ->
-     (forall d r', x = Ok d r' -> exists hdr sub, r0 = hdr ++ sub ++ r' /\ Plain hdr /\ SetOK (def_sels d) sub) ->
-     r = [] /\ exists more, doc = rev acc ++ more /\ DocOK more (hd ++ r0)).
-  { intros x hd Hhd Hx Hs. destruct x as [d r'| | |]; try discriminate Hx.
-    destruct (Hs d r' eq_refl) as (hdr & sub & -> & Hh & Hset).
-    apply IH in Hx. destruct Hx as (-> & more & -> & Hdoc). split; [reflexivity|].
+     (forall d r', x = Ok d r' -> (exists hdr sub, r0 = hdr ++ sub ++ r' /\ Plain hdr /\ SetOK (def_sels d) sub /\ def_sels d <> [])
+                                  /\ pnet r0 = pnet r') ->
+     r = [] /\ exists more, doc = rev acc ++ more /\ DocOK more (t :: r0) /\ CumOK more (t :: r0)).
+  { intros x Hk Hkw Hx Hs. destruct x as [d r'| | |]; try discriminate Hx.
+    destruct (Hs d r' eq_refl) as ((hdr & sub & -> & Hh & Hset & Hne) & Hpn).
+    apply IH in Hx. destruct Hx as (-> & more & -> & Hdoc & Hcum). split; [reflexivity|].
     exists (d :: more). split; [simpl; rewrite <- app_assoc; reflexivity|].
-    replace (hd ++ hdr ++ sub ++ r') with ((hd ++ hdr) ++ sub ++ r') by (rewrite <- app_assoc; reflexivity).
-    apply DocOK_cons; [apply Plain_app; assumption|assumption|assumption]. }
+    assert (Ht : Plain [t]) by (eapply Plain_tok_kind; [eassumption|reflexivity]).
+    change (t :: hdr ++ sub ++ r') with ((t :: hdr) ++ sub ++ r'). split.
+    - change (t :: hdr) with ([t] ++ hdr). apply DocOK_cons; [apply Plain_app; assumption|assumption|assumption].
+    - apply CumOK_cons; try assumption.
+      + right. exists t, hdr. auto.
+      + rewrite !pnet_app in Hpn. change ((t :: hdr) ++ sub) with (t :: hdr ++ sub). cbn [pnet]. rewrite Hk, pnet_app. simpl pdelta. lia. }
   dmatch H.
   { (* anonymous query *)
-    dmatch H. apply (proj1 (sel_shape f)) in E0. destruct E0 as (ps & Eq & Hset & _ & _).
-    apply IH in H. destruct H as (-> & more & -> & Hdoc). split; [reflexivity|].
+    dmatch H. pose proof (selset_paren _ _ _ _ E0) as Hpn.
+    apply (proj1 (sel_shape f)) in E0. destruct E0 as (ps & Eq & Hset & Hne & _).
+    apply IH in H. destruct H as (-> & more & -> & Hdoc & Hcum). split; [reflexivity|].
     eexists (_ :: more). split; [simpl; rewrite <- app_assoc; reflexivity|].
-    rewrite Eq. change (ps ++ rest) with ([] ++ ps ++ rest).
-    apply DocOK_cons; [apply Plain_nil|exact Hset|assumption]. }
+    rewrite Eq in *. change (ps ++ rest) with ([] ++ ps ++ rest). split.
+    - apply DocOK_cons; [apply Plain_nil|exact Hset|assumption].
+    - apply CumOK_cons; try assumption; [left; reflexivity|]. rewrite pnet_app in Hpn. simpl. lia. }
   dmatch H. dmatch H. apply is_kind_eq in E1.
-  assert (Ht : Plain [t]) by (eapply Plain_tok_kind; [eassumption|reflexivity]).
   destruct (opkind_of (keyword_of (plit t))) as [k|] eqn:Ek.
-  - apply (Cont _ [t] Ht H). intros d r' Hx. apply operation_shape in Hx. exact Hx.
+  - apply (Cont _ E1 (opkind_def_kw _ _ Ek) H). intros d r' Hx. split; [apply operation_shape in Hx; exact Hx|eapply operation_paren; exact Hx].
   - destruct (keyword_of (plit t)) eqn:Ekw; try discriminate H;
       try (simpl in H; discriminate H).
-    apply (Cont _ [t] Ht H). intros d r' Hx. apply fragment_shape in Hx. exact Hx.
+    apply (Cont (parse_fragment f r0) E1); [reflexivity|exact H|].
+    intros d r' Hx. split; [apply fragment_shape in Hx; exact Hx|eapply fragment_paren; exact Hx].
 Qed.
 
 (* ---- the limit theorems on token streams ---- *)
-Lemma parse_docok : forall ts d r, parse ts = Ok d r -> r = [] /\ DocOK d ts.
+Lemma parse_docok : forall ts d r, parse ts = Ok d r -> r = [] /\ DocOK d ts /\ CumOK d ts.
 Proof.
   intros ts d r H. unfold parse in H. apply defs_shape in H.
-  destruct H as (-> & more & -> & Hd). split; [reflexivity|exact Hd].
+  destruct H as (-> & more & -> & Hd & Hc). split; [reflexivity|split; assumption].
 Qed.
 
-(* depth: for the repaired AND the historical accounting *)
-Theorem limits_depth_sound_proof : forall fx L F ts d r,
+(* depth of each definition: for every version of the accounting *)
+Theorem limits_depth_sound_proof : forall fx cm L F ts d r,
   parse (strip ts) = Ok d r -> 0 < L -> L < doc_depth d ->
-  fst (fst (lim_run fx L F ts linit)) <> LOk.
+  fst (fst (lim_run fx cm L F ts linit)) <> LOk.
 Proof.
-  intros fx L F ts d r Hp HL Hd Hv.
-  destruct (lim_run fx L F ts linit) as [[v a] b] eqn:Hr. simpl in Hv. subst v.
+  intros fx cm L F ts d r Hp HL Hd Hv.
+  destruct (lim_run fx cm L F ts linit) as [[v a] b] eqn:Hr. simpl in Hv. subst v.
   rewrite <- lim_run_strip in Hr.
-  apply parse_docok in Hp. destruct Hp as [_ [_ [D1 _]]].
-  specialize (D1 fx L F linit [] a b HL). rewrite app_nil_r in D1.
+  apply parse_docok in Hp. destruct Hp as (_ & (_ & (D1 & _)) & _).
+  specialize (D1 fx cm L F linit [] a b HL). rewrite app_nil_r in D1.
   simpl in D1. specialize (D1 ltac:(lia) ltac:(lia) Hr). lia.
 Qed.
 
-(* fields: for the repaired accounting *)
-Theorem limits_fields_sound_proof : forall L F ts d r,
-  parse (strip ts) = Ok d r -> 0 < F -> F < doc_fields d ->
-  fst (fst (lim_run true L F ts linit)) <> LOk.
+(* cumulative depth (sum over the definitions): for the current accounting *)
+Theorem limits_cumulative_depth_sound_proof : forall L F ts d r,
+  parse (strip ts) = Ok d r -> 0 < L -> L < depth_sum d ->
+  fst (fst (lim_run true true L F ts linit)) <> LOk.
 Proof.
-  intros L F ts d r Hp HF Hd Hv.
-  destruct (lim_run true L F ts linit) as [[v a] b] eqn:Hr. simpl in Hv. subst v.
+  intros L F ts d r Hp HL Hd Hv.
+  destruct (lim_run true true L F ts linit) as [[v a] b] eqn:Hr. simpl in Hv. subst v.
   rewrite <- lim_run_strip in Hr.
-  apply parse_docok in Hp. destruct Hp as [_ [D1 _]].
-  destruct (lim_run_fields _ _ _ _ _ _ _ Hr) as [Eb Hle].
-  destruct (D1 linit eq_refl) as [_ Hf]. simpl in Hf, Hle.
+  apply parse_docok in Hp. destruct Hp as (_ & _ & C).
+  specialize (C L F linit [] a b HL eq_refl eq_refl eq_refl ltac:(simpl; lia)). rewrite app_nil_r in C.
+  destruct (C Hr) as (B & _). simpl in B. specialize (B ltac:(lia)). lia.
+Qed.
+
+(* fields of the whole document: for the accounting since the first repair *)
+Theorem limits_fields_sound_proof : forall cm L F ts d r,
+  parse (strip ts) = Ok d r -> 0 < F -> F < doc_fields d ->
+  fst (fst (lim_run true cm L F ts linit)) <> LOk.
+Proof.
+  intros cm L F ts d r Hp HF Hd Hv.
+  destruct (lim_run true cm L F ts linit) as [[v a] b] eqn:Hr. simpl in Hv. subst v.
+  rewrite <- lim_run_strip in Hr.
+  apply parse_docok in Hp. destruct Hp as (_ & (D1 & _) & _).
+  destruct (lim_run_fields _ _ _ _ _ _ _ _ Hr) as [Eb Hle].
+  destruct (D1 cm linit eq_refl) as [_ Hf]. simpl in Hf, Hle.
   specialize (Hle HF ltac:(lia)). lia.
 Qed.
 
 Theorem limits_sound_proof : forall L F ts d r,
-  parse (strip ts) = Ok d r -> exceeds L F d ->
-  fst (fst (lim_run true L F ts linit)) <> LOk.
+  parse (strip ts) = Ok d r -> exceeds_cum L F d ->
+  fst (fst (lim_run true true L F ts linit)) <> LOk.
 Proof.
   intros L F ts d r Hp [[H1 H2]|[H1 H2]].
-  - eapply limits_depth_sound_proof; eassumption.
+  - eapply limits_cumulative_depth_sound_proof; eassumption.
   - eapply limits_fields_sound_proof; eassumption.
 Qed.
